@@ -27,6 +27,18 @@ CHECKS["C01"] = ("E1+E2", "deterministic simulation with fault injection: seeded
   "exploration",
   "After every operation: one outcome per Entry, exactly one pass|block callback with the right resource/batch, exactly one completion per passed entry with its own last error and rt, nothing for blocked or late calls, live entries keep their own Err()/Args, node and inbound concurrency equal the live count (never negative), windowed sums equal the reference window of the tallied events. Sampling of histories, pool decisions and schedules.",
   "Trusted: tally model + window model, SimPool as a faithful sync.Pool behaviour subset, scheduler. One open finding is tolerated by adapting the model (panic-passed requests are uncounted).", "DESIGN.md §3 C01")
+CHECKS["C03"] = ("E1", "deterministic simulation: seeded histories of request starts, completions (ok/error, duration = virtual time) and ticks biased to the retry deadline and bucket boundaries, checked operation by operation against a reference three-state machine; listener log equality; ddmin replay",
+  "exploration",
+  "Every Entry result (pass / circuit-breaking block + blocking rule) equals the reference machine's for 1-2 breakers per resource over all strategies and parameter ranges incl. stragglers and probes blocked by a second breaker; after every operation the listener log equals the reference transition list. Sampling.",
+  "Trusted: model/breaker.go (written from DESIGN.md A.2), virtual clock. Ratio decisions within 1e-7 of the threshold end the run as ambiguous.", "DESIGN.md §3 C03")
+CHECKS["C06"] = ("E1+E2", "deterministic simulation: seeded entry/exit histories over a small value alphabet with seeded pool reuse, exact per-value live-count model, per-value counters read after every operation; 30% of runs under the seeded scheduler with 2-4 callers",
+  "exploration",
+  "E1: admit iff for every rule live(v)<T(v) (specific or general), blocked => hot-parameter block with that rule, per-value counter == live entries after every op, live entries keep their arguments, counters return to zero. E2: per-value in-flight <= T+(k-1), counters zero at quiescence. Sampling.",
+  "Trusted: live-count model and argument selection rule (DESIGN.md A.4); overlay-only read accessor for the counters.", "DESIGN.md §3 C06")
+CHECKS["C12"] = ("E2", "deterministic simulation: seeded scheduler interleaving 2-3 callers at every atomic access of TryPass / OnRequestComplete / transition helpers with clock ticks around the retry deadline, after a sequential prelude that puts the breaker fresh / near trip / open at its deadline / half-open; interval-sound history oracles over event sequence numbers; literal schedule replay",
+  "exploration",
+  "(a) listener events form a legal path from the prelude state to the final state (each transition once, right previous state); (b) each Open->HalfOpen is >= retry timeout after the invocation of the earliest call that could have opened that period; (c) with no probe number no second request is admitted during a certainly-half-open period; (d) nothing is admitted during a certainly-open period. Sampled schedules (10^5 per quick run).",
+  "Trusted: scheduler, that Open->HalfOpen is reported with no yield point after its CAS (checked by construction of the shim: the listener loop has no atomic access), interval reasoning of DESIGN.md §3 C12. One open finding (deadline checked before re-open) is tolerated and reported.", "DESIGN.md §3 C12")
 NOT_YET = {}
 props = [json.loads(l) for l in open(os.path.join(HERE, 'properties.jsonl'))]
 checks, na = [], []
